@@ -233,18 +233,25 @@ Proof. intros A W T [D Dq]. cbn [step0]. apply ctor0_ref_ok; auto. Qed.
 
 
 (* ---- assignment of one element into the cell of a rank-0 array ---- *)
+Lemma assign0_ok' A r ar0 ar x :
+  wf_slots A -> nth_error A r = Some (Some ar0) -> is0 ar0 -> is0 ar -> a_base ar = a_base ar0 ->
+  (forall s, Inv [] s -> s_arrs s = A -> src_cell_ok cfg s x) ->
+  triple (fun s => Inv [] s /\ s_arrs s = A) (assign_all cfg ar [x])
+         (fun _ s' => Inv [] s' /\ s_arrs s' = A) (fun s' => Inv [] s' /\ s_arrs s' = A /\ thrown SAssignElem s').
+Proof.
+  intros W Hn Z0 Z1 Hbase Hx s [I HA].
+  destruct (arr0_cell [] s A r ar0 I HA Hn Z0) as (b & Hb & Hc).
+  rewrite (assign_all_eq ar b [x] Z1 ltac:(congruence)).
+  apply keep_finish; auto.
+  apply (keep_assign_one cfg s SAssignElem b 0 x Hc (Hx s I HA) s). apply st_le_refl.
+Qed.
+
 Lemma assign0_ok A r ar x :
   wf_slots A -> nth_error A r = Some (Some ar) -> is0 ar ->
   (forall s, Inv [] s -> s_arrs s = A -> src_cell_ok cfg s x) ->
   triple (fun s => Inv [] s /\ s_arrs s = A) (assign_all cfg ar [x])
          (fun _ s' => Inv [] s' /\ s_arrs s' = A) (fun s' => Inv [] s' /\ s_arrs s' = A /\ thrown SAssignElem s').
-Proof.
-  intros W Hn Z0 Hx s [I HA].
-  destruct (arr0_cell [] s A r ar I HA Hn Z0) as (b & Hb & Hc).
-  rewrite (assign_all_eq ar b [x] Z0 Hb).
-  apply keep_finish; auto.
-  apply (keep_assign_one cfg s SAssignElem b 0 x Hc (Hx s I HA) s). apply st_le_refl.
-Qed.
+Proof. intros W Hn Z0 Hx. apply (assign0_ok' A r ar ar x); auto. Qed.
 
 Lemma to_Good {T} A (m : M T) :
   wf_slots A -> tmps_free A ->
@@ -257,37 +264,155 @@ Proof.
   - intros s (I & HA & _). apply (GoodT_left cfg s A); auto.
 Qed.
 
+Lemma assign0_from_arr_ok' A r ar0 ar t at_ mk :
+  wf_slots A -> nth_error A r = Some (Some ar0) -> is0 ar0 -> is0 ar -> a_base ar = a_base ar0 ->
+  nth_error A t = Some (Some at_) -> is0 at_ -> (mk = SCell \/ mk = SMoveCell) ->
+  triple (fun s => Inv [] s /\ s_arrs s = A) (assign_all cfg ar (one_cell at_ mk))
+         (fun _ s' => Inv [] s' /\ s_arrs s' = A) (fun s' => Inv [] s' /\ s_arrs s' = A /\ thrown SAssignElem s').
+Proof.
+  intros W Hr Zr Zr' Hbase Ht Zt Hmk s [I HA].
+  destruct (arr0_cell [] s A t at_ I HA Ht Zt) as (b' & Hb' & Hc').
+  rewrite (one_cell_eq at_ mk b' Zt Hb').
+  assert (Hc : forall s1, Inv [] s1 -> s_arrs s1 = A -> cell_ok cfg s1 b' 0).
+  { intros s1 I1 HA1. eapply (cell_of [] s1 A t at_ b' 0); eauto. rewrite (nel0 _ Zt). lia. }
+  apply (assign0_ok' A r ar0 ar (mk b' 0%nat) W Hr Zr Zr' Hbase); auto.
+  intros s1 I1 HA1. destruct Hmk as [-> | ->]; cbn; auto.
+Qed.
+
 Lemma assign0_from_arr_ok A r ar t at_ mk :
   wf_slots A -> nth_error A r = Some (Some ar) -> is0 ar -> nth_error A t = Some (Some at_) -> is0 at_ ->
   (mk = SCell \/ mk = SMoveCell) ->
   triple (fun s => Inv [] s /\ s_arrs s = A) (assign_all cfg ar (one_cell at_ mk))
          (fun _ s' => Inv [] s' /\ s_arrs s' = A) (fun s' => Inv [] s' /\ s_arrs s' = A /\ thrown SAssignElem s').
+Proof. intros W Hr Zr Ht Zt Hmk. apply (assign0_from_arr_ok' A r ar ar t at_ mk); auto. Qed.
+
+Lemma upd_nth_id {T} (l : list T) n x : nth_error l n = Some x -> upd_nth l n x = l.
+Proof. revert n; induction l as [|h l IH]; intros [|n] H; cbn in *; try discriminate; [inv H; auto|f_equal; auto]. Qed.
+
+Lemma wf_is0 a : is0 a -> wf_arr a.
+Proof. intros [E F]. unfold wf_arr. rewrite E, F. reflexivity. Qed.
+
+(* ---- two array objects exchange allocator and block ---- *)
+Lemma swap_store_ok A r t ar at_ :
+  nth_error A r = Some (Some ar) -> is0 ar -> nth_error A t = Some (Some at_) -> is0 at_ -> r <> t ->
+  triple (fun s => Inv [] s /\ s_arrs s = A) (swap_store r t)
+         (fun _ s' => Inv [] s' /\ s_arrs s' = upd_nth (upd_nth A r (Some (mkarr (a_alloc at_) (a_base at_) [] []))) t
+                                                        (Some (mkarr (a_alloc ar) (a_base ar) [] [])))
+         (fun _ => False).
 Proof.
-  intros W Hr Zr Ht Zt Hmk s [I HA].
-  destruct (arr0_cell [] s A t at_ I HA Ht Zt) as (b' & Hb' & Hc').
-  rewrite (one_cell_eq at_ mk b' Zt Hb').
-  assert (Hc : forall s1, Inv [] s1 -> s_arrs s1 = A -> cell_ok cfg s1 b' 0).
-  { intros s1 I1 HA1. eapply (cell_of [] s1 A t at_ b' 0); eauto. rewrite (nel0 _ Zt). lia. }
-  apply (assign0_ok A r ar (mk b' 0%nat) W Hr Zr); auto.
-  intros s1 I1 HA1. destruct Hmk as [-> | ->]; cbn; auto.
+  intros Hr Zr Ht Zt Hne. unfold swap_store. eapply bind_get_arr; [exact Hr|]. eapply bind_get_arr; [exact Ht|].
+  intros s [I HA]. unfold bind. rewrite !set_arr_eq.
+  destruct Zr as [Er Fr]. destruct Zt as [Et Ft]. rewrite Er, Fr, Et, Ft. split.
+  - pose proof (Inv_swap cfg [] s r t ar at_ (a_alloc at_) (a_alloc ar) I) as Sw.
+    rewrite Er, Fr, Et, Ft in Sw. apply Sw; auto.
+    + unfold get_slot. rewrite HA, Hr. reflexivity.
+    + unfold get_slot. rewrite HA, Ht. reflexivity.
+    + apply (alloc_eq_refl cfg).
+    + apply (alloc_eq_refl cfg).
+  - cbn. rewrite HA. reflexivity.
+Qed.
+
+(* ---- copy / move assignment under a propagation trait ---- *)
+Definition assigned (A : list (option arr)) (r : nat) (al : Z) (s' : state) : Prop :=
+  exists ar', (is0 ar' /\ a_alloc ar' = al) /\ Inv [] s' /\ s_arrs s' = upd_nth A r (Some ar').
+Lemma assigned_intro A r al s' ar' : Inv [] s' -> s_arrs s' = upd_nth A r (Some ar') -> is0 ar' -> a_alloc ar' = al -> assigned A r al s'.
+Proof. intros. exists ar'. auto. Qed.
+
+Lemma assign0_spec A prop mk tmp r t ar at_ :
+  wf_slots A -> length A = NSLOTS -> (mk = SCell \/ mk = SMoveCell) ->
+  nth_error A r = Some (Some ar) -> is0 ar -> nth_error A t = Some (Some at_) -> is0 at_ -> r <> t ->
+  (tmp < NSLOTS)%nat -> nth_error A tmp = Some None -> tmp <> r -> tmp <> t ->
+  triple (fun s => Inv [] s /\ s_arrs s = A) (assign0 cfg prop mk tmp r t)
+         (fun _ => assigned A r (if prop then a_alloc at_ else a_alloc ar)) GoodT.
+Proof.
+  intros W Hlen Hmk Hr Zr Ht Zt Hne Htl Htmp Htr Htt. unfold assign0.
+  eapply bind_get_arr; [exact Hr|]. eapply bind_get_arr; [exact Ht|].
+  assert (Lr : (r < length A)%nat) by (apply nth_error_Some; congruence).
+  destruct prop.
+  2:{ (* no propagation: the element is assigned *)
+    eapply triple_conseq; [apply (assign0_from_arr_ok A r ar t at_ mk W Hr Zr Ht Zt Hmk)| | |]; auto.
+    - intros _ s [I HA]. apply (assigned_intro A r _ s ar); auto. rewrite (upd_nth_id A r (Some ar) Hr). auto.
+    - intros s (I & HA & _). apply (GoodT_left cfg s A); auto. }
+  destruct (alloc_eq cfg (a_alloc ar) (a_alloc at_)) eqn:Eal.
+  - (* equal allocators: the allocator is replaced, the block stays *)
+    set (ar1 := mkarr (a_alloc at_) (a_base ar) (a_exts ar) (a_first ar)).
+    set (A1 := upd_nth A r (Some ar1)).
+    assert (Z1 : is0 ar1) by (destruct Zr; split; auto).
+    assert (W1 : wf_slots A1) by (apply wf_slots_upd; auto; intros a E; inv E; apply wf_is0; auto).
+    eapply triple_bind with (Q := fun _ s => Inv [] s /\ s_arrs s = A1).
+    { unfold p_set_alloc. eapply bind_get_arr; [exact Hr|]. intros s [I HA]. rewrite set_arr_eq. split.
+      - apply (Inv_retag cfg rank_pos [] s r ar ar1); auto. unfold get_slot. rewrite HA, Hr. reflexivity.
+      - cbn. rewrite HA. reflexivity. }
+    intros ?.
+    assert (H1r : nth_error A1 r = Some (Some ar1)) by (unfold A1; apply nth_upd_same; auto).
+    assert (H1t : nth_error A1 t = Some (Some at_)) by (unfold A1; rewrite nth_upd_other; auto).
+    eapply triple_conseq; [apply (assign0_from_arr_ok' A1 r ar1 ar t at_ mk W1 H1r Z1 Zr eq_refl H1t Zt Hmk)| | |]; auto.
+    + intros _ s [I HA]. apply (assigned_intro A r _ s ar1); auto.
+    + intros s (I & HA & _). apply (GoodT_left cfg s A1); auto.
+  - (* unequal allocators: a new block under the source's allocator, the old one leaves with the temporary *)
+    apply triple_pure with (F := length (one_cell at_ mk) = 1%nat).
+    { intros s [I HA]. destruct (arr0_cell [] s A t at_ I HA Ht Zt) as (b & Hb & _). rewrite (one_cell_eq at_ mk b Zt Hb). reflexivity. }
+    intros Hl1.
+    assert (Fs : Forall (src_in A) (one_cell at_ mk)) by (unfold one_cell; eapply cells_of_src_in; eauto).
+    eapply triple_bind.
+    { eapply triple_conseq; [apply (p_build_spec cfg rank_pos [] (a_alloc at_) (bnumel X0) 0 (one_cell at_ mk) A Fs (fun _ => Hl1))| | |].
+      - intros s H. exact H.
+      - intros p s H. exact H.
+      - intros s [HA [[I Th]|Th]]; [apply (GoodT_left cfg s A); auto|right; left; auto]. }
+    intros p.
+    set (tarr := with_bx (a_alloc at_) p X0).
+    set (A1 := upd_nth A tmp (Some tarr)).
+    assert (Ztm : is0 tarr) by (split; reflexivity).
+    assert (Ltmp : (tmp < length A)%nat) by (rewrite Hlen; exact Htl).
+    eapply triple_bind with (Q := fun _ s => Inv [] s /\ s_arrs s = A1).
+    { apply triple_nothrow. eapply triple_conseq; [apply (install_spec cfg [] tmp (a_alloc at_) X0 A p Htl)| | |]; auto.
+      unfold slotA. rewrite Htmp. exact Logic.I. }
+    intros ?.
+    assert (H1r : nth_error A1 r = Some (Some ar)) by (unfold A1; rewrite nth_upd_other; auto).
+    assert (H1m : nth_error A1 tmp = Some (Some tarr)) by (unfold A1; apply nth_upd_same; auto).
+    set (ar' := mkarr (a_alloc tarr) (a_base tarr) [] []).
+    set (A2 := upd_nth (upd_nth A1 r (Some ar')) tmp (Some (mkarr (a_alloc ar) (a_base ar) [] []))).
+    eapply triple_bind with (Q := fun _ s => Inv [] s /\ s_arrs s = A2).
+    { apply triple_nothrow. apply (swap_store_ok A1 r tmp ar tarr H1r Zr H1m Ztm). auto. }
+    intros ?.
+    assert (H2m : nth_error A2 tmp = Some (Some (mkarr (a_alloc ar) (a_base ar) [] []))).
+    { unfold A2. apply nth_upd_same. rewrite upd_nth_length. unfold A1. rewrite upd_nth_length. auto. }
+    apply triple_nothrow. eapply triple_post; [apply (dtor_ok cfg rank_pos [] A2 tmp _ H2m)|].
+    intros _ s [I HA]. apply (assigned_intro A r _ s ar'); [auto| |split; reflexivity|reflexivity].
+    rewrite HA. unfold A2, A1. rewrite upd_nth_twice.
+    rewrite (upd_nth_comm (upd_nth A tmp (Some tarr)) r tmp) by auto. rewrite upd_nth_twice.
+    rewrite (upd_nth_id A tmp None Htmp). reflexivity.
+Qed.
+
+Lemma assign0_Good A prop mk r t ar at_ :
+  wf_slots A -> tmps_free A -> live0 A r ar -> live0 A t at_ -> r <> t -> (mk = SCell \/ mk = SMoveCell) ->
+  triple (fun s => Inv [] s /\ s_arrs s = A) (assign0 cfg prop mk TMP1 r t) (fun _ s' => Good s') GoodT.
+Proof.
+  intros W T [Dr Zr] [Dt Zt] Hne Hmk.
+  apply triple_pure with (F := length A = NSLOTS). { intros s [I HA]. eapply len_A; eauto. } intros Hlen.
+  destruct (tmp_ne_user cfg rank_pos r (proj1 Dr)) as (N1 & _ & _). destruct (tmp_ne_user cfg rank_pos t (proj1 Dt)) as (M1 & _ & _).
+  pose proof T as (T1 & _ & _).
+  eapply triple_post; [apply (assign0_spec A prop mk TMP1 r t ar at_ W Hlen Hmk (proj2 Dr) Zr (proj2 Dt) Zt Hne); auto|].
+  - unfold NSLOTS, TMP1. lia.
+  - intros _ s (ar' & (Z' & _) & I & HA). apply (Good_intro cfg s _ I HA).
+    + apply wf_slots_upd; auto. intros a E; inv E. apply wf_is0; auto.
+    + eapply tmps_free_upd; eauto; apply Dr.
 Qed.
 
 Lemma ok_ZAssignCopy r t : op_ok0 (ZAssignCopy r t).
 Proof.
-  intros A W T ((ar & Dr & Zr) & (at_ & Dt & Zt)). cbn [step0].
+  intros A W T ((ar & Dr) & (at_ & Dt)). cbn [step0].
   destruct (Nat.eqb_spec r t) as [->|Hne].
   - eapply bind_get_arr; [apply Dr|]. intros s [I HA]. apply (Good_intro cfg s A); auto.
-  - eapply bind_get_arr; [apply Dr|]. eapply bind_get_arr; [apply Dt|].
-    apply to_Good; auto. eapply assign0_from_arr_ok; eauto; try apply Dr; try apply Dt.
+  - eapply assign0_Good; eauto.
 Qed.
 
 Lemma ok_ZAssignMove r t : op_ok0 (ZAssignMove r t).
 Proof.
-  intros A W T ((ar & Dr & Zr) & (at_ & Dt & Zt)). cbn [step0].
-  eapply bind_get_arr; [apply Dr|]. eapply bind_get_arr; [apply Dt|].
+  intros A W T ((ar & Dr) & (at_ & Dt)). cbn [step0].
   destruct (Nat.eqb_spec r t) as [->|Hne].
-  - intros s [I HA]. apply (Good_intro cfg s A); auto.
-  - apply to_Good; auto. eapply assign0_from_arr_ok; eauto; try apply Dr; try apply Dt.
+  - eapply bind_get_arr; [apply Dr|]. intros s [I HA]. apply (Good_intro cfg s A); auto.
+  - eapply assign0_Good; eauto.
 Qed.
 
 Lemma ok_ZAssignElem r v : op_ok0 (ZAssignElem r v).
@@ -362,13 +487,18 @@ Proof.
   intros A W T (Hne & (ar & Dr & Zr) & (at_ & Dt & Zt)). cbn [step0].
   eapply bind_get_arr; [apply Dr|]. eapply bind_get_arr; [apply Dt|].
   destruct (Nat.eqb_spec r t) as [->|_]; [contradiction|].
-  apply to_Good; auto. intros s [I HA].
-  destruct (arr0_cell [] s A r ar I HA (proj2 Dr) Zr) as (b & Hb & Hc).
-  destruct (arr0_cell [] s A t at_ I HA (proj2 Dt) Zt) as (b' & Hb' & Hc').
-  unfold bind at 1. unfold base_blk at 1. rewrite Hb. cbn [ret].
-  unfold bind at 1. unfold base_blk at 1. rewrite Hb'. cbn [ret].
-  apply keep_finish; auto.
-  apply (keep_swap_cells cfg s b 0 b' 0 Hc Hc' s). apply st_le_refl.
+  destruct (c_pocs cfg).
+  - apply triple_nothrow. eapply triple_post; [apply (swap_store_ok A r t ar at_ (proj2 Dr) Zr (proj2 Dt) Zt Hne)|].
+    intros _ s [I HA]. apply (Good_intro cfg s _ I HA).
+    + apply wf_slots_upd; [apply wf_slots_upd; auto|]; intros a E; inv E; apply wf_is0; split; reflexivity.
+    + eapply tmps_free_upd; eauto; [apply Dt|]. eapply tmps_free_upd; eauto; apply Dr.
+  - apply to_Good; auto. intros s [I HA].
+    destruct (arr0_cell [] s A r ar I HA (proj2 Dr) Zr) as (b & Hb & Hc).
+    destruct (arr0_cell [] s A t at_ I HA (proj2 Dt) Zt) as (b' & Hb' & Hc').
+    unfold bind at 1. unfold base_blk at 1. rewrite Hb. cbn [ret].
+    unfold bind at 1. unfold base_blk at 1. rewrite Hb'. cbn [ret].
+    apply keep_finish; auto.
+    apply (keep_swap_cells cfg s b 0 b' 0 Hc Hc' s). apply st_le_refl.
 Qed.
 
 (* ---- through references ---- *)
@@ -428,8 +558,6 @@ Qed.
 
 
 (* ---- using std::swap; swap(a, b): T tmp(std::move(a)); a = std::move(b); b = std::move(tmp); ~tmp ---- *)
-Lemma upd_nth_id {T} (l : list T) n x : nth_error l n = Some x -> upd_nth l n x = l.
-Proof. revert n; induction l as [|h l IH]; intros [|n] H; cbn in *; try discriminate; [inv H; auto|f_equal; auto]. Qed.
 
 Lemma ok_ZSwap r t : op_ok0 (ZSwap r t).
 Proof.
@@ -464,21 +592,37 @@ Proof.
   assert (H1t : nth_error A1 t = Some (Some at_)).
   { unfold A1. rewrite nth_upd by auto. destruct (Nat.eqb_spec TMP1 t); [congruence|apply Dt]. }
   assert (H1m : nth_error A1 TMP1 = Some (Some tarr)) by (unfold A1; rewrite nth_upd by auto; rewrite Nat.eqb_refl; auto).
+  assert (H1f : nth_error A1 TMP2 = Some None).
+  { unfold A1. rewrite nth_upd_other; [exact T2|unfold TMP1, TMP2; lia]. }
+  assert (L1' : length A1 = NSLOTS) by (unfold A1; rewrite upd_nth_length; auto).
+  destruct (tmp_ne_user cfg rank_pos r (proj1 Dr)) as (_ & N2 & _). destruct (tmp_ne_user cfg rank_pos t (proj1 Dt)) as (_ & M2 & _).
   (* a = std::move(b) *)
-  eapply triple_bind with (Q := fun _ s => Inv [] s /\ s_arrs s = A1).
-  { eapply triple_conseq; [apply (assign0_from_arr_ok A1 r ar t at_ SMoveCell W1 H1r Zr H1t Zt); auto| | |]; auto.
-    intros s (I & HA & _). apply (GoodT_left cfg s A1); auto. }
-  intros ?.
-  eapply bind_get_arr; [exact H1m|].
+  eapply triple_bind.
+  { apply (assign0_spec A1 (c_pocma cfg) SMoveCell TMP2 r t ar at_ W1 L1' (or_intror eq_refl) H1r Zr H1t Zt Hne); auto.
+    unfold NSLOTS, TMP2. lia. }
+  intros ?. apply triple_exists. intros ar'. apply triple_assume. intros [Zr' _].
+  set (A2 := upd_nth A1 r (Some ar')).
+  assert (W2 : wf_slots A2) by (apply wf_slots_upd; auto; intros a E; inv E; apply wf_is0; auto).
+  assert (L2 : length A2 = NSLOTS) by (unfold A2; rewrite upd_nth_length; auto).
+  assert (H2t : nth_error A2 t = Some (Some at_)) by (unfold A2; rewrite nth_upd_other; auto).
+  assert (H2m : nth_error A2 TMP1 = Some (Some tarr)) by (unfold A2; rewrite nth_upd_other; auto).
+  assert (H2f : nth_error A2 TMP2 = Some None) by (unfold A2; rewrite nth_upd_other; auto).
   (* b = std::move(tmp) *)
-  eapply triple_bind with (Q := fun _ s => Inv [] s /\ s_arrs s = A1).
-  { eapply triple_conseq; [apply (assign0_from_arr_ok A1 t at_ TMP1 tarr SMoveCell W1 H1t Zt H1m Zt'); auto| | |]; auto.
-    intros s (I & HA & _). apply (GoodT_left cfg s A1); auto. }
-  intros ?.
+  eapply triple_bind.
+  { apply (assign0_spec A2 (c_pocma cfg) SMoveCell TMP2 t TMP1 at_ tarr W2 L2 (or_intror eq_refl) H2t Zt H2m Zt'); auto.
+    - unfold NSLOTS, TMP2. lia.
+    - unfold TMP1, TMP2. lia. }
+  intros ?. apply triple_exists. intros at'. apply triple_assume. intros [Zt'' _].
+  set (A3 := upd_nth A2 t (Some at')).
+  assert (H3m : nth_error A3 TMP1 = Some (Some tarr)) by (unfold A3; rewrite nth_upd_other; auto).
   (* ~tmp *)
-  apply triple_nothrow. eapply triple_post; [apply (dtor_ok cfg rank_pos [] A1 TMP1 tarr H1m)|].
-  intros _ s [I HA]. apply (Good_intro cfg s A); auto.
-  rewrite HA. unfold A1. rewrite upd_nth_twice. apply upd_nth_id. exact T1.
+  apply triple_nothrow. eapply triple_post; [apply (dtor_ok cfg rank_pos [] A3 TMP1 tarr H3m)|].
+  intros _ s [I HA]. apply (Good_intro cfg s _ I HA).
+  - apply wf_slots_upd; [|intros a E; discriminate]. apply wf_slots_upd; auto. intros a E; inv E; apply wf_is0; auto.
+  - unfold A3, A2, A1.
+    rewrite (upd_nth_comm _ t TMP1) by auto. rewrite (upd_nth_comm _ r TMP1) by auto. rewrite upd_nth_twice.
+    rewrite (upd_nth_id A TMP1 None T1).
+    eapply tmps_free_upd; eauto; [apply Dt|]. eapply tmps_free_upd; eauto; apply Dr.
 Qed.
 
 (* ---- every rank-0 entry point ---- *)
